@@ -24,7 +24,23 @@ namespace Alloc
 
 /-- the client's name the operation is about -/
 def Op.name : Op → Nat
-  | .malloc h _ _ _ | .write h _ _ | .append h _ _ _ _ | .realloc h _ _ _ _ | .free h _ => h
+  | .malloc h _ _ _ | .write h _ _ | .append h _ _ _ _ | .realloc h _ _ _ _ | .free h _ | .foreign h _ _ => h
+
+theorem foreignOk_alignedCap (cap : Nat) (h : foreignOk cap = true) : alignedCap cap := by
+  simp only [foreignOk, Bool.or_eq_true, beq_iff_eq, bne_iff_ne, decide_eq_true_eq, List.any_eq_true,
+    List.mem_range] at h
+  rcases h with ((h | h) | h) | ⟨i, hi, hc⟩
+  · exact .inr (.inl h)
+  · exact .inr (.inr h)
+  · exact .inl (.inl h)
+  · exact .inl (.inr ⟨i, hi, hc⟩)
+
+/-- a foreign buffer enters the heap like a fresh allocation -/
+theorem foreign_ok (g : Cfg) (h : Nat) (s : St) (cap len : Nat) (hi : Inv g s) (hl : len ≤ cap)
+    (hf : g.kind = .aligned → foreignOk cap = true) :
+    OpOK g h s (s.alloc cap []).1 ⟨(s.alloc cap []).2, len⟩ := by
+  obtain ⟨h1, h2, h3, h4⟩ := alloc_ok g h s cap [] (hi.exempt h) (fun ha => foreignOk_alignedCap cap (hf ha))
+  exact OpOK.of_ext h1 h2 h3 (by show len ≤ ((s.alloc cap []).1.region s.regions.length).cap; rw [h4]; exact hl)
 
 theorem step_inv (g : Cfg) (s s' : St) (o : Op) (hi : Inv g s) (hs : step g s o = .ok s') : Inv g s' := by
   cases o with
@@ -89,6 +105,15 @@ theorem step_inv (g : Cfg) (s s' : St) (o : Op) (hi : Inv g s) (hs : step g s o 
         simp only at hs
         cases hs
         exact bind_ok g h s s1 y (doRealloc_ok g h s s1 x y size grow tag c hi hx hm).1
+  | foreign h cap len =>
+    simp only [step] at hs
+    split at hs
+    · cases hs
+    · split at hs
+      · rename_i hc
+        cases hs
+        exact bind_ok g h s _ _ (foreign_ok g h s cap len hi hc.1 hc.2)
+      · cases hs
   | free h tag =>
     simp only [step] at hs
     split at hs
@@ -291,6 +316,15 @@ theorem c20_frame (g : Cfg) (ops : List Op) (o : Op) (s' : St)
         simp only at hs
         cases hs
         exact after_bind h s1 y hk (doRealloc_ok g h s s1 x y size grow tag c hi hx hm).1
+  | foreign h cap len =>
+    simp only [step] at hs
+    split at hs
+    · cases hs
+    · split at hs
+      · rename_i hc
+        cases hs
+        exact after_bind h _ _ hk (foreign_ok g h s cap len hi hc.1 hc.2)
+      · cases hs
   | free h tag =>
     simp only [step] at hs
     split at hs
@@ -364,6 +398,11 @@ theorem c20_no_panic (g : Cfg) (ops : List Op) (o : Op) : step g (run g {} ops) 
         rw [this] at hm
         exact doRealloc_no_panic g h s x size grow tag c hi hm
       | ok p => simp
+  | foreign h cap len =>
+    simp only [step]
+    split
+    · simp
+    · split <;> simp
   | free h tag =>
     simp only [step]
     split <;> simp
@@ -473,6 +512,28 @@ theorem c20_accepts (g : Cfg) (s : St) (h : Nat) :
     simp only [step, hl]; exact ⟨_, rfl⟩
   · intro x off data hl hfit
     simp only [step, hl, hfit, if_true]; exact ⟨_, rfl⟩
+
+/-! ### foreign buffers (not handed out by the allocator) -/
+
+/-- Aligned allocator: **every pooled buffer of class `i` has exactly the capacity of class `i`** — for every program,
+    including programs that bring foreign buffers (`Op.foreign`: empty / `nil` slices, odd capacities, capacities above the
+    threshold, capacities that are a class size) and pass them to `Append`, `Realloc`, `Free`.  This is what makes the
+    reslice `pooled[:size]` of `Malloc` safe (`c20_no_panic`); it needs `Free` to ignore a zero capacity (the repair). -/
+theorem c20_pooled_class_cap (ops : List Op) :
+    ∀ e ∈ (run { kind := .aligned } {} ops).pool,
+      ((run { kind := .aligned } {} ops).region e.rid).cap = classSize e.cls :=
+  (c20_invariant { kind := .aligned } ops).acls rfl
+
+/-- the sequence of the defect report on the repaired model: `Append` to an empty foreign slice takes the slow path and
+    frees the empty slice, which is ignored; the next `Malloc(1)` gets a fresh 32-byte buffer of length 1.  A foreign
+    buffer whose capacity is a class size (64) *is* pooled by `Free` and handed out again (by design). -/
+example :
+    let g : Cfg := { kind := .aligned }
+    let s := run g {} [.foreign 0 0 0, .append 0 [120] .fresh 0 1, .malloc 1 1 .fresh 0,
+                       .foreign 2 64 3, .free 2 7, .malloc 3 50 (.reuse 7) 0]
+    s.pool = [] ∧ s.read 0 = some [120] ∧ (s.read 1).map List.length = some 1 ∧
+      (s.lookup 3).map (·.rid) = some 3 ∧ (s.read 3).map List.length = some 50 := by
+  decide
 
 /-! ### outside the contract (documented, not a finding: DESIGN §6 C20) -/
 
